@@ -69,58 +69,20 @@ theorem u128_add_exact (u v : U128) (hu : u.WF) (hv : v.WF) :
 
 /-- `Add64`: no hypothesis on `v` is needed (a Go `uint64` argument is `< W` anyway) -/
 theorem u128_add64_exact (u : U128) (v : Nat) (hu : u.WF) :
-    U128.add64 u v = if u.toNat + v < W * W then .ok (U128.ofNat (u.toNat + v)) else .error () := by
-  obtain ⟨h1, h0⟩ := hu
-  unfold U128.add64 bitsAdd64 U128.toNat U128.ofNat
-  simp only [W] at *
-  by_cases h : u.w1 * 18446744073709551616 + u.w0 + v < 18446744073709551616 * 18446744073709551616
-  · have : ¬ (((u.w1 + 0 + (u.w0 + v + 0) / 18446744073709551616) / 18446744073709551616 != 0) = true) := by
-      simp; omega
-    rw [if_neg this, if_pos h]; congr 2 <;> omega
-  · have : (((u.w1 + 0 + (u.w0 + v + 0) / 18446744073709551616) / 18446744073709551616 != 0) = true) := by
-      simp; omega
-    rw [if_pos this, if_neg h]
+    U128.add64 u v = if u.toNat + v < W * W then .ok (U128.ofNat (u.toNat + v)) else .error () :=
+  U128.add64_spec u v hu
 
 theorem u128_sub_exact (u v : U128) (hu : u.WF) (hv : v.WF) :
-    U128.sub u v = if v.toNat ≤ u.toNat then .ok (U128.ofNat (u.toNat - v.toNat)) else .error () := by
-  obtain ⟨h1, h0⟩ := hu
-  obtain ⟨k1, k0⟩ := hv
-  unfold U128.sub bitsSub64 U128.toNat U128.ofNat
-  simp only [W] at *
-  by_cases a : v.w0 + 0 ≤ u.w0 <;> simp only [a, if_true, if_false]
-  · by_cases b : v.w1 + 0 ≤ u.w1 <;> simp only [b, if_true, if_false]
-    · have h : v.w1 * 18446744073709551616 + v.w0 ≤ u.w1 * 18446744073709551616 + u.w0 := by omega
-      rw [if_pos h]; simp; constructor <;> omega
-    · have h : ¬ v.w1 * 18446744073709551616 + v.w0 ≤ u.w1 * 18446744073709551616 + u.w0 := by omega
-      rw [if_neg h]; simp
-  · by_cases b : v.w1 + 1 ≤ u.w1 <;> simp only [b, if_true, if_false]
-    · have h : v.w1 * 18446744073709551616 + v.w0 ≤ u.w1 * 18446744073709551616 + u.w0 := by omega
-      rw [if_pos h]; simp; constructor <;> omega
-    · have h : ¬ v.w1 * 18446744073709551616 + v.w0 ≤ u.w1 * 18446744073709551616 + u.w0 := by omega
-      rw [if_neg h]; simp
+    U128.sub u v = if v.toNat ≤ u.toNat then .ok (U128.ofNat (u.toNat - v.toNat)) else .error () :=
+  U128.sub_spec u v hu hv
 
 theorem u128_mul64_exact (u : U128) (v : Nat) (hu : u.WF) (hv : v < W) :
-    U128.mul64 u v = if u.toNat * v < W * W then .ok (U128.ofNat (u.toNat * v)) else .error () := by
-  obtain ⟨h1, h0⟩ := hu
-  unfold U128.mul64 bitsMul64 bitsAdd64 U128.toNat U128.ofNat
-  have b0 := mul_limb_le h0 hv
-  have b1 := mul_limb_le h1 hv
-  rw [Nat.add_mul, Nat.mul_right_comm]
-  generalize u.w0 * v = p0 at *
-  generalize u.w1 * v = p1 at *
-  simp only [W] at *
-  by_cases h : p1 * 18446744073709551616 + p0 < 18446744073709551616 * 18446744073709551616
-  · rw [if_pos h, if_neg (by simp; omega)]; congr 2 <;> omega
-  · rw [if_neg h, if_pos (by simp; omega)]
+    U128.mul64 u v = if u.toNat * v < W * W then .ok (U128.ofNat (u.toNat * v)) else .error () :=
+  U128.mul64_spec u v hu hv
 
 theorem u128_cmp_exact (u v : U128) (hu : u.WF) (hv : v.WF) :
-    U128.cmp u v = if u.toNat < v.toNat then -1 else if u.toNat = v.toNat then 0 else 1 := by
-  obtain ⟨h1, h0⟩ := hu
-  obtain ⟨k1, k0⟩ := hv
-  unfold U128.cmp U128.toNat
-  simp only [W] at *
-  repeat' split
-  all_goals first | rfl | omega
+    U128.cmp u v = if u.toNat < v.toNat then -1 else if u.toNat = v.toNat then 0 else 1 :=
+  U128.cmp_spec u v hu hv
 
 /-- `Uint128.Mul` is exact (and signals overflow exactly) only when one of the two high limbs is zero:
 the model (like the Go code, finding D27b) never looks at `u.w1 * v.w1`.  The full statement
